@@ -2,6 +2,7 @@
 //! choices are owned through the scripted-RNG hook: every Fisher-Yates choice vector is run.
 
 use crate::cli::{run_bin, scratch_file, Run};
+use rustc_hash::FxHashSet;
 use crate::enumerate::for_each_seq;
 use crate::runner::{Ctx, Engine};
 use serde_json::{json, Value};
@@ -394,27 +395,37 @@ fn check_colors(ctx: &mut Ctx, edges: &[(String, String)], k: usize) {
     }
     let n = verts.len();
     let adj_in = |x: &String, y: &String| edges.iter().any(|(a, b)| (a == x && b == y) || (a == y && b == x));
-    let adj_out = |x: &String, y: &String| out.iter().any(|(a, b)| (a == x && b == y) || (a == y && b == x));
-    let mut colourable = false;
-    let mut covering_clique = false;
-    let total = (k as u64).pow(n as u32);
-    for code in 0..total.max(if n == 0 { 1 } else { 0 }) {
-        let mut c = code;
-        let col: Vec<usize> = (0..n).map(|_| {
-            let x = (c % k.max(1) as u64) as usize;
-            c /= k.max(1) as u64;
-            x
-        }).collect();
-        let proper = (0..n).all(|i| (0..n).all(|j| i >= j || !adj_in(&verts[i], &verts[j]) || col[i] != col[j]));
-        colourable |= proper;
-        let picks: Vec<String> = (0..n).map(|i| format!("{}_c{}", verts[i], col[i])).collect();
-        let clique = (0..n).all(|i| (0..n).all(|j| i >= j || adj_out(&picks[i], &picks[j])));
-        covering_clique |= clique;
+    let _adj_out = |x: &String, y: &String| out.iter().any(|(a, b)| (a == x && b == y) || (a == y && b == x));
+    // exhaustive search over all k^n colourings, pruned as soon as a partial choice is already
+    // improper / already not a clique (sound: every extension of such a prefix fails too)
+    let adj_in_m: Vec<Vec<bool>> = (0..n).map(|i| (0..n).map(|j| adj_in(&verts[i], &verts[j])).collect()).collect();
+    let pick_names: Vec<Vec<String>> = (0..n).map(|i| (0..k).map(|c| format!("{}_c{}", verts[i], c)).collect()).collect();
+    let mut out_set: FxHashSet<(&str, &str)> = FxHashSet::default();
+    for (a, b) in &out {
+        out_set.insert((a.as_str(), b.as_str()));
+        out_set.insert((b.as_str(), a.as_str()));
     }
-    if k == 0 && n > 0 {
-        colourable = false;
-        covering_clique = false;
+    fn search(i: usize, n: usize, k: usize, col: &mut Vec<usize>, ok: &dyn Fn(usize, usize, usize, usize) -> bool, nodes: &mut u64) -> bool {
+        if i == n {
+            return true;
+        }
+        for c in 0..k {
+            *nodes += 1;
+            if (0..i).all(|j| ok(j, col[j], i, c)) {
+                col.push(c);
+                let r = search(i + 1, n, k, col, ok, nodes);
+                col.pop();
+                if r {
+                    return true;
+                }
+            }
+        }
+        false
     }
+    let mut nodes = 0u64;
+    let mut colourable = search(0, n, k, &mut vec![], &|j, cj, i, ci| !adj_in_m[i][j] || cj != ci, &mut nodes);
+    let mut covering_clique = search(0, n, k, &mut vec![], &|j, cj, i, ci| out_set.contains(&(pick_names[j][cj].as_str(), pick_names[i][ci].as_str())), &mut nodes);
+    ctx.count("colouring_search_nodes", nodes);
     if colourable != covering_clique {
         ctx.violation(key, format!("the input graph is {}{k}-colourable but the output {} a clique choosing one (vertex, colour) per input vertex", if colourable { "" } else { "not " }, if covering_clique { "has" } else { "has no" }), convert_case(edges, true, Some(k)));
     }
@@ -496,6 +507,53 @@ fn convert_sweep_large(ctx: &mut Ctx) {
         if ctx.mine(idx) {
             // the same lists through --convert (4..10 edges, five vertices)
             check_convert(ctx, &edges, mask % 2 == 0, mask % 4 < 2);
+        }
+    }
+    // eight distinct edges followed by the reverse of each of them in turn (and of all of them)
+    {
+        let first: Vec<(String, String)> = (0..8usize).map(|i| (format!("n{}", i % 5), format!("n{}", (i % 5 + 1 + i / 5) % 5 + 5 * (i / 7)))).collect();
+        let mut uniq: Vec<(String, String)> = vec![];
+        for (a, b) in [("p", "q"), ("q", "r"), ("r", "s"), ("s", "t"), ("t", "p"), ("p", "r"), ("q", "s"), ("r", "t"), ("s", "p"), ("t", "q")] {
+            uniq.push((a.to_string(), b.to_string()));
+        }
+        let _ = first;
+        for late in 0..uniq.len() {
+            for keep in [8usize, 9, 10] {
+                let mut edges: Vec<(String, String)> = uniq[..keep].to_vec();
+                edges.push((uniq[late % keep].1.clone(), uniq[late % keep].0.clone()));
+                for u in [false, true] {
+                    idx += 1;
+                    if ctx.mine(idx) {
+                        check_convert(ctx, &edges, u, late % 2 == 0);
+                    }
+                }
+            }
+        }
+        let mut edges: Vec<(String, String)> = uniq.clone();
+        edges.extend(uniq.iter().rev().map(|(a, b)| (b.clone(), a.clone())));
+        idx += 1;
+        if ctx.mine(idx) {
+            check_convert(ctx, &edges, true, false);
+            check_convert(ctx, &edges, false, true);
+        }
+    }
+    // complete graphs K_m against k colours around m (two-digit colour numbers included):
+    // K_m is k-colourable iff m <= k
+    for (m, k) in [(4usize, 3usize), (4, 4), (5, 4), (6, 6), (9, 9), (10, 9), (10, 10), (11, 10), (11, 11)].into_iter().chain(if ctx.thorough() { vec![(12usize, 11usize), (12, 12)] } else { vec![] }) {
+        let edges: Vec<(String, String)> = (0..m).flat_map(|i| ((i + 1)..m).map(move |j| (format!("k{i}"), format!("k{j}")))).collect();
+        idx += 1;
+        if ctx.mine(idx) {
+            check_colors(ctx, &edges, k);
+        }
+    }
+    // many colours on tiny graphs (two-digit colour numbers)
+    for es in [vec![("x", "y")], vec![("x", "y"), ("y", "z")], vec![("x", "y"), ("y", "z"), ("z", "x")]] {
+        let edges: Vec<(String, String)> = es.iter().map(|(a, b)| (a.to_string(), b.to_string())).collect();
+        for k in [5usize, 9, 10, 11, 12] {
+            idx += 1;
+            if ctx.mine(idx) {
+                check_colors(ctx, &edges, k);
+            }
         }
     }
     // lists with repeated and reversed edges, length 4..6
